@@ -4,6 +4,8 @@
 package main
 
 import (
+	"runtime/debug"
+	"runtime/pprof"
 	"encoding/json"
 	"fmt"
 	"os"
@@ -64,7 +66,15 @@ func main() {
 	if !ok {
 		harness.Fatal("unknown check %s", prop)
 	}
+	debug.SetGCPercent(400)
+	if pf := os.Getenv("VERIF_CPUPROFILE"); pf != "" {
+		fh, err := os.Create(pf)
+		if err == nil {
+			pprof.StartCPUProfile(fh)
+		}
+	}
 	r := harness.NewRun(prop, tier, level)
 	f(r)
+	pprof.StopCPUProfile()
 	os.Exit(r.Finish())
 }
